@@ -46,7 +46,7 @@ PROPS['C12'] = dict(
     level_note='assumed: str::parse / dec2flt (digit strings to numbers) is replaced by a nondeterministic value constrained by the proved parse_with_limits contract; text shapes outside the templates are not decided; ordering of the result lists is C13',
     verus=[dict(unit='c12', tier='quick')],
     kani=['support.kc', 'c12_points.kc', 'tp_lines.kc', 'c13.kc'],
-    only_prefix=['c12_', 'tp_line_', 'c13_twin_redundant', 'c13_twin_insert'],
+    only_prefix=['c12_', 'tp_line_', 'c13_twin_redundant', 'c13_twin_insert', 'c13_twin_timing_insert', 'c13_twin_effect_insert', 'c13_twin_sample_insert'],
     kani_functions=['src/section/timing_points/control_points/timing.rs :: TimingPoint::new, TimeSignature::new, Default',
                     'src/section/timing_points/control_points/difficulty.rs :: DifficultyPoint::new, is_redundant, Default',
                     'src/section/timing_points/control_points/effect.rs :: EffectPoint::new, is_redundant, Default',
@@ -65,14 +65,14 @@ _CURVE_TRUST = COMMON_TRUST + [
 PROPS['C16'] = dict(
     category='other',
     technique='Verus contract on the extracted calculate_length with the float computations abstracted to uninterpreted functions (which value ends up as the total distance, shape of path / lengths: every path length); Kani harnesses on the real calculate_length with a contract-style stand-in for Pos::length for the numeric facts (bounded in the number of path vertices)',
-    level_text='proved (Verus, paths of every length): lengths start at 0 and are never empty; path.len() <= lengths.len() on every exit (the invariant the accessors need), both indexed accesses in range; the path is only truncated, never to nothing; without a requested length one length per vertex and the total is the natural length; with a requested length L the total is EXACTLY L (for L > 0), except: L within EPSILON of the natural length or the stable quirk (last two points equal and L longer) -> natural length kept, single point -> one length. bounded stand-in: calculate_length on unadjusted paths of 0..3 vertices (4 in the thorough tier), every finite f32 coordinate and every finite requested length > 0: total distance exactly L with the two stated exceptions, lengths start at 0 / never decrease / stay finite, truncation keeps path.len() <= lengths.len()',
-    level_note='assumed: Euclidean length is finite, >= 0 and 0 for identical points (its numeric value and the geometry of the natural curve are C17, not applicable); Catmull simplification bookkeeping and longer paths not decided',
-    verus=[dict(unit='len', tier='quick'), dict(unit='bez', tier='quick')], kani=['curve.kc'],
+    level_text='proved (Verus, paths of every length): lengths start at 0 and are never empty; path.len() <= lengths.len() on every exit (the invariant the accessors need), both indexed accesses in range; the path is only truncated, never to nothing; without a requested length one length per vertex and the total is the natural length; with a requested length L the total is EXACTLY L (for L > 0), except: L within EPSILON of the natural length or the stable quirk (last two points equal and L longer) -> natural length kept, single point -> one length; Catmull simplification (unit cat, Catmull polylines of every length, idealised float + and -): surplus_after + |kept polyline| == surplus_before + |full polyline|, the kept polyline starts and ends where the full one does, earlier path vertices stay, no other arm or mode touches the surplus, `sub_path[i - 1]` in range. bounded stand-in: calculate_length on unadjusted paths of 0..3 vertices (4 in the thorough tier), every finite f32 coordinate and every finite requested length > 0: total distance exactly L with the two stated exceptions, lengths start at 0 / never decrease / stay finite, truncation keeps path.len() <= lengths.len()',
+    level_note='assumed: Euclidean length is finite, >= 0 and 0 for identical points (its numeric value and the geometry of the natural curve are C17, not applicable); the Catmull conservation law (unit cat) is proved over IDEALISED float arithmetic (+ and - exact on the reals, admitted axioms listed in trusted_base) -- float rounding of the surplus is not decided; numeric facts on longer paths not decided',
+    verus=[dict(unit='len', tier='quick'), dict(unit='bez', tier='quick'), dict(unit='cat', tier='quick')], kani=['curve.kc'],
     only_prefix=['c16_', 'c18_slider_path_cache'],
     kani_functions=['src/section/hit_objects/slider/curve.rs :: fn calculate_length'],
     explanation='see level_text; per-obligation statements in coverage.samples[].states',
     trusted_base=_CURVE_TRUST, assumptions=['requested length finite and > 0 (L <= 0 and non-finite L are outside the statement)'],
-    not_decided=['numeric facts (never decrease, finite) on paths longer than the bound', 'Catmull simplification leaves the total unchanged (calculate_subpath bookkeeping)', 'the cut point is interpolated on the segment it falls in (value of the re-projected end vertex: float products)'],
+    not_decided=['numeric facts (never decrease, finite) on paths longer than the bound', 'float rounding in the Catmull surplus (the conservation law is proved over idealised arithmetic)', 'the cut point is interpolated on the segment it falls in (value of the re-projected end vertex: float products)'],
 )
 
 PROPS['C18'] = dict(
@@ -256,7 +256,7 @@ PROPS['C01'] = dict(
     technique='panic-freedom / unsafe-guard contracts on the mechanisms the property names: Kani loop-free full-domain harnesses where the function is loop-free, bounded harnesses otherwise',
     level_text='proved (Verus, every length): the lossy UTF-8 loop of Encoding::decode slices in range, calls the unsafe from_utf8_unchecked only on a prefix std validated (its safety condition is a Verus precondition) and terminates; interpolate_vertices never indexes outside its slices given path.len() <= lengths.len(), which calculate_length establishes on every exit for paths of every length (unit len, also: its own `path[end_idx]` / `path[prev_idx]` in range); the whole Bezier chain calculate_path -> calculate_subpath -> approximate_bezier -> extend_exact / approximate_bspline -> bezier_approximate / bezier_subdivide never slices or indexes outside the vertex list or the shared scratch buffers, for every number of control points and every earlier use of the buffers (data-structure invariant: the four scratch vectors have equal length; approximate_bspline requires capacity >= points.len(), which every caller must prove), `unreachable!()` in calculate_path is unreachable. proved (Kani, full domain): numeric limits (parse_with_limits for f64 / f32 / i32: accepted values lie within +-limit and are never NaN, no overflow panic), BOM table, code-unit pairing, the two unsafe NonZeroU32::new_unchecked guards (HitSampleInfo::new, SamplePoint::apply), SliderEventsIter::new. Bounded stand-ins: path-string conversion incl. the raw-pointer split buffer being empty on every exit, index safety of interpolate_vertices / idx_of_dist / calculate_length (path.len() <= lengths.len() invariant), line parsers on templates never panic for any numeric value',
     level_note='the universally quantified claim over byte strings is whole-program totality and is NOT decided; nor are termination of the adaptive Bezier subdivision and of the tick loop, the 1000-point arc cap, re-encoding, the tracing feature set',
-    verus=[dict(unit='c19', tier='quick'), dict(unit='len', tier='quick'), dict(unit='bez', tier='quick'), dict(unit='enc', tier='quick')], kani=['support.kc', 'parse_number.kc', 'encoding.kc', 'u16_iter.kc', 'hit_samples.kc', 'c15_sample.kc', 'curve.kc', 'c20.kc', 'ho_lines.kc', 'c11_sections.kc'],
+    verus=[dict(unit='c19', tier='quick'), dict(unit='len', tier='quick'), dict(unit='bez', tier='quick'), dict(unit='cat', tier='quick'), dict(unit='enc', tier='quick')], kani=['support.kc', 'parse_number.kc', 'encoding.kc', 'u16_iter.kc', 'hit_samples.kc', 'c15_sample.kc', 'curve.kc', 'c20.kc', 'ho_lines.kc', 'c11_sections.kc'],
     only_prefix=['pn_', 'enc_from_bom', 'enc_decode', 'u16_', 'hs_hit_sample_info_new', 'c15_sample_point_apply', 'c16_calculate_length_2', 'c19_interpolate', 'c19_idx', 'c20_new_clears', 'ho_path_one', 'ho_path_trailing', 'ho_line_5', 'c11_event_video_non_ascii', 'c11_difficulty_slider_multiplier', 'c11_color_five'],
     kani_functions=['src/util/parse_number.rs :: impl ParseNumber for f64 / f32 / i32', 'src/reader/encoding.rs :: Encoding::from_bom', 'src/reader/u16_iter.rs :: iterators',
                     'src/section/hit_objects/hit_samples.rs :: HitSampleInfo::new (unsafe)', 'src/section/timing_points/control_points/sample.rs :: SamplePoint::apply (unsafe)',
@@ -270,8 +270,8 @@ PROPS['C04'] = dict(
     category='other',
     technique='Verus contracts on the extracted encoder functions with the writer replaced by a typed emission protocol (rule R10: every write!/writeln!/write_all becomes the sequence of typed emissions it performs; the line grammar and the key/value acceptance table are preconditions of the emission functions) and, for the slider path, by an emission log (rule R7) with a loop invariant over the `,` separators',
     level_text='proved (Verus, every map value): Beatmap::encode writes the format-version line first and then the eight section headers, once each, in canonical order, with the header texts Section::try_from_line recognises; every line written by encode_general / encode_editor / encode_metadata / encode_difficulty has the shape `Key: value` (bookmarks: `Key: v,v,..`) with a key of that section and a value whose rendered class (integer / 0..3 discriminant / float / text) the parser arm of that key accepts. every record line of encode_events (background, breaks), encode_colors (combo and named colours) and encode_timing_points (both kinds of line: two leading floats written by the loop + the six-field tail of output_control_point_at) has the comma-separated field shape parse_events / Color::from_str / parse_timing_points accept (field count, event-type discriminant, numeric classes); a dropped `?` on any of these writes fails the proof; every [HitObjects] line has the field shape the parser reads for the KIND whose bits its type word carries (circle: bank info; spinner: end time `,` bank info; hold: `end:bank info` in one field; slider: five path fields, then the bank info), the bank info being `n:a:idx:vol:[file]` (encode_hit_objects + get_sample_bank). proved (Verus, control-point lists of every length): the slider path part contains exactly one `,` separator and it is the last path token (decoder grammar `type (| point)* ,`)',
-    level_note='known finding D8 (KNOWN-FINDING line, unit plen): the slider length field is the computed path distance when the decoded slider had no requested length, and that value is not bounded by the parser limit 131072. rendered text (core::fmt) is abstracted to the class of the argument type; the acceptance table `accepts` is transcribed from the match arms of the four parse_* functions (parser side pinned per key by the c11_* Kani harnesses); the tail of add_path_data (length, node sounds, node banks: assumed to write its five fields) and the preamble of encode_timing_points that builds the groups are CUT from the units (line counts in evidence)',
-    verus=[dict(unit='c04', tier='quick'), dict(unit='kv', tier='quick'), dict(unit='rec', tier='quick'), dict(unit='hol', tier='quick'), dict(unit='plen', tier='quick', finding='D8')], kani=[],
+    level_note='known finding D8 (KNOWN-FINDING line, unit plen): the slider length field is the computed path distance when the decoded slider had no requested length, and that value is not bounded by the parser limit 131072. known finding D9 (KNOWN-FINDING line, unit stime): the time of a sample point collected from a hit object is the object\'s COMPUTED end time, which is not bounded by the parser limit i32::MAX (the call sites inside the osu! / Catch slider-event arms are CUT from that unit: not decided). other numeric ranges of written fields are not decided (rendered text is abstracted to the class of the argument type). rendered text (core::fmt) is abstracted to the class of the argument type; the acceptance table `accepts` is transcribed from the match arms of the four parse_* functions (parser side pinned per key by the c11_* Kani harnesses); the tail of add_path_data (length, node sounds, node banks: assumed to write its five fields) and the preamble of encode_timing_points that builds the groups are CUT from the units (line counts in evidence)',
+    verus=[dict(unit='c04', tier='quick'), dict(unit='kv', tier='quick'), dict(unit='rec', tier='quick'), dict(unit='hol', tier='quick'), dict(unit='plen', tier='quick', finding='D8'), dict(unit='stime', tier='quick', finding='D9', finding_sites=['collect_sample(&mut collected_samples, &h.samples, end_time)'])], kani=[],
     kani_functions=[],
     explanation='see level_text',
     trusted_base=COMMON_TRUST + ['R7: writer -> emission log; write!/write_all -> emit(token)', 'R10: writer -> typed emission protocol; argument text abstracted to the class of its Rust type; `E as i32` -> as_i32(E)',
